@@ -139,7 +139,7 @@ fn kind_name(k: &OpKind) -> String {
         OpKind::SameCell(..) => "same_cell".into(),
         OpKind::BumpViaRhs => "bump_via_rhs".into(),
         OpKind::Pull => "pull".into(),
-        OpKind::MkFresh(v) => format!("mk_fresh/{}", v % 10),
+        OpKind::MkFresh(v) => format!("mk_fresh/{}", v % 12),
         OpKind::SelfShow => "self_show".into(),
         OpKind::SelfSet(_) => "self_set".into(),
         OpKind::SelfTie => "self_tie".into(),
@@ -1041,6 +1041,9 @@ pub const SHARED_FNS: &[(&str, &[&str])] = &[
 // workload swarm
 
 pub const SHARED_PROGS: &[&str] = &[
+    // a recursive named function whose frame holds more than a handful of variables
+    "walk := (n: int, a: int, b: int, c: int) -> int { if n < 1 return a + b + c; d := a + 1; e := b + 2; f := c + 3; g := d + e + f; return walk(n - 1, d, e, f) + g - g; }; (walk(5, 1, 1, 1), walk(2, 0, 0, 0))",
+    "deep := (n: int, acc: [int], tag: string, flag: bool) -> [int] { if n < 1 return acc; x := n * 2; y := x + 1; z := [x, y]; w := acc + z; return deep(n - 1, w, tag + \"x\", !flag); }; std.len(deep(4, [], \"t\", true))",
     // cells created inside loop bodies (every iteration and every run gets its own)
     "s := mut 0; for e in [1, 2, 3]~ { t := mut e; t += 1; s += *t }; *s",
     "acc := mut [mut int] []; i := mut 0; while *i < 3 { i += 1; acc += [mut *i] }; q := *acc; q[0] += 10; (*q[0], *q[1], *q[2])",
@@ -1360,7 +1363,11 @@ pub fn minimise(input: &Value) -> Value {
     let class = input["class"].as_str().unwrap().to_string();
     crate::boot::boot(sc.boot_seed);
     let mut trials = 0u64;
-    let Some((mut best, mut best_rep)) = find_failing(&sc, &class, 0) else {
+    // the recorded schedule first; if it no longer fails (the worker that found it had run
+    // thousands of scenarios before: whatever process-wide state the code under test keeps was
+    // different there), search schedules again in this fresh process - the replay file then holds
+    // a schedule that fails from a cold start
+    let Some((mut best, mut best_rep)) = find_failing(&sc, &class, 0).or_else(|| find_failing(&sc, &class, 600)) else {
         return json!({"reproduced": false});
     };
     if sc.mode == "cells" || sc.mode == "shared_fn" {
